@@ -86,7 +86,7 @@ fn drops() -> usize {
 }
 
 /// A single-use value is handed out at most once and dropped exactly once overall, whether it is requested 0, 1 or 2 times (C12).
-//@K props=C12 tier=quick label=full feat=std fn=<T0asIntoReturnOnce<Owning<T>>>::into_return_once[drop-count]
+//@K props=C12,C02 tier=quick label=full feat=std fn=<T0asIntoReturnOnce<Owning<T>>>::into_return_once[drop-count]
 #[kani::proof]
 #[kani::unwind(3)]
 fn owning_once_drops_exactly_once() {
@@ -125,7 +125,7 @@ fn any_poll() -> Poll<u8> {
 }
 
 /// Deep<Option<Owning>>: delivered shape-for-shape; after a single-use delivery it is None exactly when an owned leaf was consumed.
-//@K props=C12,C17 tier=quick label=full feat=std fn=deep::option::{into_return_once,into_return,output}
+//@K props=C12,C17,C02 tier=quick label=full feat=std fn=deep::option::{into_return_once,into_return,output}
 #[kani::proof]
 #[kani::unwind(3)]
 fn deep_option_owning() {
@@ -141,7 +141,7 @@ fn deep_option_owning() {
 }
 
 /// Deep<Result<Owning, Owning>>: same variant, same leaf; single-use in both variants.
-//@K props=C12,C17 tier=quick label=full feat=std fn=deep::result::{into_return_once,into_return,output}
+//@K props=C12,C17,C02 tier=quick label=full feat=std fn=deep::result::{into_return_once,into_return,output}
 #[kani::proof]
 #[kani::unwind(3)]
 fn deep_result_owning() {
@@ -166,7 +166,7 @@ fn eq_res_ref(o: Option<Result<&u8, i8>>, v: Result<u8, i8>) -> bool {
 
 /// Deep<Result<Lending, Owning>> (borrowed Ok leaf, owned Err leaf): a borrowed leaf can be returned on every call; the owned
 /// Err leaf is single-use exactly on the single-use path.
-//@K props=C12,C17 tier=quick label=full feat=std fn=deep::result::{into_return_once,into_return,output}[mixed]
+//@K props=C12,C17,C02 tier=quick label=full feat=std fn=deep::result::{into_return_once,into_return,output}[mixed]
 #[kani::proof]
 #[kani::unwind(3)]
 fn deep_result_mixed() {
@@ -186,7 +186,7 @@ fn deep_result_mixed() {
 }
 
 /// Shallow<Result<&T, E>>: same contract as the mixed deep result.
-//@K props=C12,C17 tier=quick label=full feat=std fn=shallow::result::{into_return_once,into_return,output}
+//@K props=C12,C17,C02 tier=quick label=full feat=std fn=shallow::result::{into_return_once,into_return,output}
 #[kani::proof]
 #[kani::unwind(3)]
 fn shallow_result() {
@@ -227,7 +227,7 @@ fn shallow_option() {
 }
 
 /// Deep<Poll<Owning>>: Ready/Pending preserved; single-use on the single-use path only, repeatable on the Clone path.
-//@K props=C12,C17 tier=quick label=full feat=std fn=deep::poll::{into_return_once,into_return,output}
+//@K props=C12,C17,C02 tier=quick label=full feat=std fn=deep::poll::{into_return_once,into_return,output}
 #[kani::proof]
 #[kani::unwind(3)]
 fn deep_poll_owning() {
@@ -244,7 +244,7 @@ fn deep_poll_owning() {
 
 /// Deep tuples (arity 2 and 4): every slot keeps its own value (no transposition); owned + borrowed mix; single-use exactly on
 /// the single-use path.
-//@K props=C12,C17 tier=quick label=full feat=std fn=deep::tuples::{into_return_once,into_return,output}
+//@K props=C12,C17,C02 tier=quick label=full feat=std fn=deep::tuples::{into_return_once,into_return,output}
 #[kani::proof]
 #[kani::unwind(3)]
 fn deep_tuples() {
@@ -329,11 +329,11 @@ macro_rules! deep_vec_harness {
         }
     };
 }
-//@K props=C12,C17 tier=quick label=bnd feat=std fn=deep::vec::{into_return_once,into_return,output} bound=len=0
+//@K props=C12,C17,C02 tier=quick label=bnd feat=std fn=deep::vec::{into_return_once,into_return,output} bound=len=0
 deep_vec_harness!(deep_vec_n0, 0);
-//@K props=C12,C17 tier=quick label=bnd feat=std fn=deep::vec::{into_return_once,into_return,output} bound=len=2
+//@K props=C12,C17,C02 tier=quick label=bnd feat=std fn=deep::vec::{into_return_once,into_return,output} bound=len=2
 deep_vec_harness!(deep_vec_n2, 2);
-//@K props=C12,C17 tier=thorough label=bnd feat=std fn=deep::vec::{into_return_once,into_return,output} bound=len=3 timeout=1200
+//@K props=C12,C17,C02 tier=thorough label=bnd feat=std fn=deep::vec::{into_return_once,into_return,output} bound=len=3 timeout=1200
 deep_vec_harness!(deep_vec_n3, 3);
 
 macro_rules! shallow_vec_harness {
@@ -377,7 +377,7 @@ shallow_vec_harness!(shallow_vec_n2, 2);
 shallow_vec_harness!(shallow_vec_n3, 3);
 
 /// Nesting of depth 2: Deep<Option<Deep<Result<Lending, Owning>>>>.
-//@K props=C17,C12 tier=quick label=full feat=std fn=deep::option+deep::result[nested]
+//@K props=C17,C12,C02 tier=quick label=full feat=std fn=deep::option+deep::result[nested]
 #[kani::proof]
 #[kani::unwind(3)]
 fn deep_nested() {
